@@ -124,7 +124,7 @@ def sources(tier, seed, ctx):
     return srcs
 
 
-def record(src):
+def _record(src):
     from cirbo.synthesis.generation import arithmetics as ar
 
     rng = random.Random(hash(str(sorted((k, str(v)) for k, v in src.items()))) & 0xffffff)
@@ -206,3 +206,6 @@ def record(src):
 
 nontrivial = A.nontrivial
 features = A.features
+
+
+record = A.with_decoys(_record)
